@@ -19,7 +19,7 @@ from .. import multi
 
 ID = "C18"
 LEVEL = "exploration"
-RULE = ("random base queries over 1-4 variables (depth<=4, full vocabulary; a fifth of them for_all queries with permuted universal and free domains, a tenth flatten queries with several conditions given in another order over a permuted parent domain), each compared with 3 variants produced by a "
+RULE = ("random base queries over 1-4 variables (depth<=4, full vocabulary; a fifth of them for_all queries with permuted universal and free domains, a tenth flatten queries with several conditions given in another order over a permuted parent domain; feature-interaction queries of eqlmon/ix.py with the parent domain permuted; a nested an() over a flattened element used as an operand in a conjunct before / after the conjunct on its parent; half of the plain base queries may select an attribute expression next to variables), each compared with 3 variants produced by a "
         "random composition of the listed rewrites plus permuted declaration order, selection order and domain order, and "
         "the several-arguments spelling of a top-level conjunction; caching on. Non-trivial: the base result is neither "
         "empty nor the whole product and at least one variant differs syntactically from the base. distinct by hash.")
